@@ -179,8 +179,8 @@ Proof. vm_compute. reflexivity. Qed.
    (Gen/Source.v, rewritten on every run; equivalences: Proofs/GenEq_gcsa*.v).  A behavioural change
    of one of these functions changes the generated term and breaks the proof quoted here. *)
 From CG Require Import Model.Loop Gen.Source.
-From CG Require Proofs.GenEq_gcsa Proofs.GenEq_gcsa2 Proofs.GenEq_gcsa3 Proofs.GenEq_gcsa4 Proofs.GenEq_gcsa5.
-Import GenEq_gcsa GenEq_gcsa2 GenEq_gcsa3 GenEq_gcsa4 GenEq_gcsa5.
+From CG Require Proofs.GenEq_gcsa Proofs.GenEq_gcsa2 Proofs.GenEq_gcsa3 Proofs.GenEq_gcsa4 Proofs.GenEq_gcsa5 Proofs.GenEq_gcsa6.
+Import GenEq_gcsa GenEq_gcsa2 GenEq_gcsa3 GenEq_gcsa4 GenEq_gcsa5 GenEq_gcsa6.
 
 (* _infer_is_all_day, in the zone model *)
 Example C20_source_infer_is_all_day : forall s e tz, src_infer_is_all_day s e tz = infer_all_day s e tz
@@ -382,3 +382,35 @@ Example C20_source_handle_write_errors :
     g_gcsa_handle_write_errors wrs_error r = RDone (match r with inl v => v | inr e => wrs_error e end)
   := @g_gcsa_handle_write_errors_eq.
 Print Assumptions C20_source_handle_write_errors.
+
+(* Calendar.fetch over the generated forward and reverse fetches *)
+Example C20_source_fetch :
+  forall (z : zone) (st : list sev) (ctz : option zone) (a : astate) (lo : option Z) (h : Z) (rv : bool),
+    quiet z st ctz a ->
+    let ffw := src_fetch_forward (mkBS z st 0 0 []) ctz in
+    snd (fetch a lo (Some h) rv) = Some (g_gcsa_fetch ffw (src_reverse_list ffw) lo (Some h) rv)
+  := src_fetch_is_model.
+Print Assumptions C20_source_fetch.
+
+(* Calendar._add_interval as a whole (its own text, over the generated helpers) *)
+Example C20_source_add_interval_full :
+  forall (a : astate) (ctz : option zone) (w : wev),
+    a_tz a = Some ctz -> snd (tick (a_b a)) = true ->
+    snd (add_interval a w) = src_add_interval (fun q => snd (b_store (fst (tick (a_b a))) q)) ctz w
+  := src_add_interval_full_is_model.
+Print Assumptions C20_source_add_interval_full.
+
+(* Calendar._add_many: one failed result per event when the batch raises; and the final statement of
+   _add_many_batch returns the results in the order of the input events *)
+Example C20_source_add_many :
+  forall (a : astate) (l : list wev),
+    g_gcsa_add_many (model_batch a) (fun _ => failed) l tt = RDone (snd (add_many a l))
+  := src_add_many_is_model.
+Print Assumptions C20_source_add_many.
+
+Example C20_source_add_many_batch_order :
+  forall (I WR : Type) (missing : WR) (results : list WR) (events : list I),
+    length results = length events ->
+    g_gcsa_add_many_batch_results (fun d i => nth (Z.to_nat i) d missing) results events = results
+  := @g_gcsa_add_many_batch_results_eq.
+Print Assumptions C20_source_add_many_batch_order.
